@@ -84,6 +84,9 @@ func (o *hOrigin) ServeHTTP(w http.ResponseWriter, r *http.Request) {
 	}
 	rs := sc.resps[idx]
 	h := w.Header()
+	if rs.RejectHead != "" { // a connection-specific field: decodes fine, the client must refuse the head
+		h.Set(rs.RejectHead, "close")
+	}
 	if rs.Early103 {
 		h.Set("Link", "</style.css>; rel=preload")
 		w.WriteHeader(103)
@@ -509,6 +512,11 @@ func h23PartsOf(w wireEx, rs respSpec, method string, finalBody []byte, isFinal 
 		p.NoResp = true
 		return p
 	}
+	if rs.RejectHead != "" { // the head was received, decoded, dumped - and refused: no body for the caller
+		p.RespHeader = fieldLines(w.RespFields)
+		p.NoResp = true
+		return p
+	}
 	if w.RespFields == nil { // the stream was reset: no response at all
 		p.NoResp = true
 		return p
@@ -720,6 +728,7 @@ func pairs23(r *hk.Run, rng *hk.Rand, count int, st stack) {
 		}
 		emitExch(r, cfg, coqX, xs, on.Sink, pl, map[string]interface{}{"kind": st.name, "exchange": ex, "dump": cfg}, st.name+"|"+keyOf(in), nt)
 		emitReqOps(r, cfg, in)
+		emitClientOps(r, cfg, ex.Clone, in)
 	}
 }
 
@@ -844,4 +853,37 @@ func isInterleaving(got, a, b []byte) bool {
 		}
 	}
 	return reach[len(b)]
+}
+
+// genH3Rejected: the response head carries a connection-specific field (quic-go's server forwards
+// it): the client decodes the HEADERS frame and then refuses the response.  The header lines were
+// transmitted: they must be in the dump.
+func genH3Rejected(rng *hk.Rand) exSpec {
+	for {
+		ex := genExchange23(rng)
+		if ex.Retry || len(ex.Resps) != 1 || ex.Resps[0].Early103 || ex.After || ex.ManualRead > 0 {
+			continue
+		}
+		ex.Resps[0].RejectHead = hk.Pick(rng, []string{"Connection", "Keep-Alive", "Upgrade", "Proxy-Connection"})
+		ex.Resps[0].Fault = ""
+		ex.WantErr = true
+		ex.Shape = "rejected-head(" + strings.ToLower(ex.Resps[0].RejectHead) + ")+" + ex.Shape
+		return ex
+	}
+}
+
+func h3RejectedPairs(r *hk.Run, rng *hk.Rand, count int) {
+	o, err := newH3Origin()
+	if err != nil {
+		r.Fail(hk.Failure{Sig: "setup:h3", What: "h3 origin could not be started: " + err.Error()})
+		return
+	}
+	defer o.close()
+	pairs23(r, rng, count, stack{
+		name: "h3", ctor: "X3", url: "https://" + o.pc.LocalAddr().String(),
+		client: func() *req.Client { return req.C().EnableInsecureSkipVerify().EnableForceHTTP3() },
+		reg:    o.register, hits: o.hits,
+		take: func() []wireEx { return parseH3(o.take()) },
+		gen:  genH3Rejected,
+	})
 }
